@@ -20,6 +20,7 @@ import (
 	"io"
 	"net"
 	"os"
+	"strings"
 	"sync"
 	"sync/atomic"
 	"testing"
@@ -48,7 +49,9 @@ type c15Op struct {
 }
 
 type c15Case struct {
-	ID     int      `json:"id"`
+	ID      int      `json:"id"`
+	Retries int      `json:"retries"`           // how many times the history was re-run because a harness wait expired
+	Expired []string `json:"expired,omitempty"` // the waits that expired in the abandoned attempts
 	Kind   string   `json:"kind"`
 	Cap    int      `json:"cap"`
 	Ops    []c15Op  `json:"ops"`
@@ -78,6 +81,10 @@ type c15World struct {
 	fatal   string
 	win     *Session // session whose shutdown window is open
 }
+
+// every wait of the harness polls up to this bound; a history in which a wait expires is re-run from
+// scratch (fresh manager and sessions, same seed) up to 2 more times before anything is reported
+const c15WaitBound = 60 * time.Second
 
 func c15Wait(cond func() bool, d time.Duration) bool {
 	dl := time.Now().Add(d)
@@ -297,6 +304,9 @@ func (w *c15World) rec(c *c15Case, op c15Op) {
 // ---- ops -------------------------------------------------------------------------------------
 
 func (w *c15World) opGet(c *c15Case, caller int) {
+	if w.fatal != "" {
+		return
+	}
 	op := c15Op{Op: "get", C: caller, S: -1}
 	s, err := w.sm.GetStream()
 	switch {
@@ -365,6 +375,9 @@ func (w *c15World) opGet(c *c15Case, caller int) {
 }
 
 func (w *c15World) opPut(c *c15Case, caller, i int) {
+	if w.fatal != "" {
+		return
+	}
 	if i < 0 || i >= len(w.streams) {
 		w.fatal = fmt.Sprintf("script diverged: stream #%d was never handed out (the pool returned an unexpected stream earlier)", i)
 		return
@@ -422,6 +435,9 @@ func (w *c15World) srvDrain(ss *Stream) {
 // NOTE: touching the buffers of a stream whose session has shut down faults (the shared memory is
 // unmapped by Session.Close; that is C14's subject) - the generator never does it.
 func (w *c15World) opWrite(c *c15Case, caller, i, n int) {
+	if w.fatal != "" {
+		return
+	}
 	if i < 0 || i >= len(w.streams) {
 		w.fatal = fmt.Sprintf("script diverged: stream #%d was never handed out (the pool returned an unexpected stream earlier)", i)
 		return
@@ -448,6 +464,9 @@ func (w *c15World) exhaust(bm *bufferManager) []*bufferSlice {
 }
 
 func (w *c15World) opFlush(c *c15Case, caller, i int) {
+	if w.fatal != "" {
+		return
+	}
 	if i < 0 || i >= len(w.streams) {
 		w.fatal = fmt.Sprintf("script diverged: stream #%d was never handed out (the pool returned an unexpected stream earlier)", i)
 		return
@@ -474,9 +493,9 @@ func (w *c15World) opFlush(c *c15Case, caller, i int) {
 		ok := c15Wait(func() bool {
 			ss = w.srvStream(i)
 			return ss != nil && (c15PendLen(ss) > before || ss.recvBuf.Len() > 0)
-		}, 10*time.Second)
+		}, c15WaitBound)
 		if !ok {
-			w.fatal = "flush: data did not reach the server within 10 s"
+			w.fatal = "flush: data did not reach the server within the bound"
 		} else {
 			w.srvDrain(ss)
 		}
@@ -489,6 +508,9 @@ func (w *c15World) opFlush(c *c15Case, caller, i int) {
 
 // write n bytes while the shared memory is exhausted (heap slice => Flush goes through the socket)
 func (w *c15World) opWriteFb(c *c15Case, caller, i, n int) {
+	if w.fatal != "" {
+		return
+	}
 	if i < 0 || i >= len(w.streams) {
 		w.fatal = fmt.Sprintf("script diverged: stream #%d was never handed out (the pool returned an unexpected stream earlier)", i)
 		return
@@ -508,6 +530,9 @@ func (w *c15World) opWriteFb(c *c15Case, caller, i, n int) {
 }
 
 func (w *c15World) opSrvSend(c *c15Case, i, n int) bool {
+	if w.fatal != "" {
+		return false
+	}
 	if i < 0 || i >= len(w.streams) {
 		w.fatal = fmt.Sprintf("script diverged: stream #%d was never handed out (the pool returned an unexpected stream earlier)", i)
 		return false
@@ -527,8 +552,8 @@ func (w *c15World) opSrvSend(c *c15Case, i, n int) bool {
 		w.fatal = "server flush failed: " + err.Error()
 		return true
 	}
-	if !c15Wait(func() bool { return c15PendLen(s) > before }, 10*time.Second) {
-		w.fatal = "server data did not reach the client stream within 10 s"
+	if !c15Wait(func() bool { return c15PendLen(s) > before }, c15WaitBound) {
+		w.fatal = "server data did not reach the client stream within the bound"
 	}
 	if _, h := w.held[i]; !h {
 		w.lateD[i] = true
@@ -539,6 +564,9 @@ func (w *c15World) opSrvSend(c *c15Case, i, n int) bool {
 }
 
 func (w *c15World) opRead(c *c15Case, caller, i, k int) bool {
+	if w.fatal != "" {
+		return false
+	}
 	if i < 0 || i >= len(w.streams) {
 		w.fatal = fmt.Sprintf("script diverged: stream #%d was never handed out (the pool returned an unexpected stream earlier)", i)
 		return false
@@ -561,6 +589,9 @@ func (w *c15World) opRead(c *c15Case, caller, i, k int) bool {
 }
 
 func (w *c15World) opRelease(c *c15Case, caller, i int) {
+	if w.fatal != "" {
+		return
+	}
 	if i < 0 || i >= len(w.streams) {
 		w.fatal = fmt.Sprintf("script diverged: stream #%d was never handed out (the pool returned an unexpected stream earlier)", i)
 		return
@@ -573,6 +604,9 @@ func (w *c15World) opRelease(c *c15Case, caller, i int) {
 }
 
 func (w *c15World) opCloseS(c *c15Case, caller, i int) {
+	if w.fatal != "" {
+		return
+	}
 	if i < 0 || i >= len(w.streams) {
 		w.fatal = fmt.Sprintf("script diverged: stream #%d was never handed out (the pool returned an unexpected stream earlier)", i)
 		return
@@ -582,6 +616,9 @@ func (w *c15World) opCloseS(c *c15Case, caller, i int) {
 }
 
 func (w *c15World) opSrvClose(c *c15Case, i int) bool {
+	if w.fatal != "" {
+		return false
+	}
 	if i < 0 || i >= len(w.streams) {
 		w.fatal = fmt.Sprintf("script diverged: stream #%d was never handed out (the pool returned an unexpected stream earlier)", i)
 		return false
@@ -594,8 +631,8 @@ func (w *c15World) opSrvClose(c *c15Case, i int) bool {
 	was := s.getStreamState()
 	ss.Close()
 	if was == uint32(streamOpened) {
-		if !c15Wait(func() bool { return s.getStreamState() != uint32(streamOpened) }, 10*time.Second) {
-			w.fatal = "peer close did not reach the client stream within 10 s"
+		if !c15Wait(func() bool { return s.getStreamState() != uint32(streamOpened) }, c15WaitBound) {
+			w.fatal = "peer close did not reach the client stream within the bound"
 		}
 	} else {
 		time.Sleep(2 * time.Millisecond)
@@ -610,17 +647,23 @@ func (w *c15World) opSrvClose(c *c15Case, i int) bool {
 }
 
 func (w *c15World) opHeal(c *c15Case) {
+	if w.fatal != "" {
+		return
+	}
 	atomic.StoreUint32(&w.pool().Session().unhealthy, 0) // the 30 s circuit-breaker timer fires
 	w.rec(c, c15Op{Op: "heal"})
 }
 
 // the server side of the current session goes away; the manager closes the pool and rebuilds
 func (w *c15World) opSessLoss(c *c15Case) {
+	if w.fatal != "" {
+		return
+	}
 	old := w.pool().Session()
 	var srv *Session
-	c15Wait(func() bool { srv = w.serverOf(old); return srv != nil }, 10*time.Second)
+	c15Wait(func() bool { srv = w.serverOf(old); return srv != nil }, c15WaitBound)
 	if srv == nil {
-		w.fatal = "no server session"
+		w.fatal = "no server session appeared within the bound"
 		return
 	}
 	srv.Close()
@@ -633,9 +676,9 @@ func (w *c15World) opSessLoss(c *c15Case) {
 		old.streamLock.RUnlock()
 		cur := w.pool().Session()
 		return cleaned && cur != old && !cur.IsClosed()
-	}, 30*time.Second)
+	}, c15WaitBound)
 	if !ok {
-		w.fatal = "session was not rebuilt within 30 s"
+		w.fatal = "session was not rebuilt within the bound"
 		return
 	}
 	// the pool was emptied by the manager's background goroutine before the rebuild
@@ -643,7 +686,9 @@ func (w *c15World) opSessLoss(c *c15Case) {
 	if _, known := w.sessIdx[cur]; !known {
 		w.sessIdx[cur] = len(w.sessIdx)
 	}
-	c15Wait(func() bool { return w.serverOf(cur) != nil }, 10*time.Second)
+	if !c15Wait(func() bool { return w.serverOf(cur) != nil }, c15WaitBound) {
+		w.fatal = "the server side of the rebuilt session did not appear within the bound"
+	}
 	w.feat["session-loss"] = true
 	w.rec(c, c15Op{Op: "sessloss"})
 }
@@ -652,14 +697,17 @@ func (w *c15World) opSessLoss(c *c15Case) {
 // been closed yet: Session.Close() has set the flag and waits for shutdownLock, which the harness holds.
 // (shutdownErr is pre-set as Close would do next, otherwise OpenStream returns (nil, nil) in the window.)
 func (w *c15World) opShutWin(c *c15Case) {
+	if w.fatal != "" {
+		return
+	}
 	old := w.pool().Session()
 	old.shutdownLock.Lock()
 	if old.shutdownErr == nil {
 		old.shutdownErr = ErrSessionShutdown
 	}
 	go old.Close()
-	if !c15Wait(func() bool { return old.IsClosed() }, 10*time.Second) {
-		w.fatal = "Session.Close did not set the shutdown flag"
+	if !c15Wait(func() bool { return old.IsClosed() }, c15WaitBound) {
+		w.fatal = "Session.Close did not set the shutdown flag within the bound"
 	}
 	w.win = old
 	w.feat["shutdown-window"] = true
@@ -667,6 +715,9 @@ func (w *c15World) opShutWin(c *c15Case) {
 }
 
 func (w *c15World) opEndWin(c *c15Case) {
+	if w.fatal != "" {
+		return
+	}
 	old := w.win
 	w.win = nil
 	old.shutdownLock.Unlock()
@@ -676,16 +727,18 @@ func (w *c15World) opEndWin(c *c15Case) {
 		old.streamLock.RUnlock()
 		cur := w.pool().Session()
 		return cleaned && cur != old && !cur.IsClosed()
-	}, 30*time.Second)
+	}, c15WaitBound)
 	if !ok {
-		w.fatal = "session was not rebuilt within 30 s"
+		w.fatal = "session was not rebuilt within the bound"
 		return
 	}
 	cur := w.pool().Session()
 	if _, known := w.sessIdx[cur]; !known {
 		w.sessIdx[cur] = len(w.sessIdx)
 	}
-	c15Wait(func() bool { return w.serverOf(cur) != nil }, 10*time.Second)
+	if !c15Wait(func() bool { return w.serverOf(cur) != nil }, c15WaitBound) {
+		w.fatal = "the server side of the rebuilt session did not appear within the bound"
+	}
 	w.feat["session-loss"] = true
 	w.rec(c, c15Op{Op: "endwin"})
 }
@@ -1022,6 +1075,35 @@ func c15Concurrent(w *c15World, r *vrand, c *c15Case) {
 	}
 }
 
+// one attempt at one history on a fresh world; returns the case and what stopped it ("" = nothing)
+func c15RunJob(id, attempt int, kind string, cap, sub int, seed uint64, nops int) (c c15Case, fatal string) {
+	c = c15Case{ID: id, Kind: kind, Cap: cap}
+	defer func() {
+		if e := recover(); e != nil {
+			fatal = fmt.Sprintf("panic: %v", e)
+		}
+	}()
+	w, err := c15NewWorld(id*4+attempt, cap) // fresh paths: nothing is shared with an abandoned attempt
+	if err != nil {
+		return c, "setup failed: " + err.Error()
+	}
+	defer w.close()
+	switch kind {
+	case "directed":
+		c.Kind = fmt.Sprintf("directed-%d", sub)
+		c15Directed(w, &c, sub)
+	case "concurrent":
+		c15Concurrent(w, newVrand(seed), &c)
+	default:
+		c15History(w, newVrand(seed), &c, nops)
+	}
+	c.Oracle = w.oracle
+	for f := range w.feat {
+		c.Feat = append(c.Feat, f)
+	}
+	return c, w.fatal
+}
+
 func TestVerif_C15(t *testing.T) {
 	seed := uint64(venvInt("VERIF_SEED", 1))
 	n := venvInt("VERIF_N", 24)
@@ -1065,38 +1147,27 @@ func TestVerif_C15(t *testing.T) {
 		go func(k int, j job) {
 			defer wg.Done()
 			defer func() { <-sem }()
-			c := c15Case{ID: j.id, Kind: j.kind, Cap: j.cap}
-			defer func() {
-				if e := recover(); e != nil {
-					c.Note += fmt.Sprintf(" HARNESS: panic: %v", e)
-					results[k] = c
+			var expired []string
+			for attempt := 0; ; attempt++ {
+				c, fatal := c15RunJob(j.id, attempt, j.kind, j.cap, j.sub, j.seed, nops)
+				c.Retries = attempt
+				c.Expired = expired
+				if fatal != "" && attempt < 2 {
+					expired = append(expired, fatal)
+					continue
 				}
-			}()
-			w, err := c15NewWorld(j.id, j.cap)
-			if err != nil {
-				c.Note = "setup failed: " + err.Error()
-				c.Oracle = []string{"C15:harness-setup-failed|" + err.Error()}
+				if fatal != "" {
+					// the same wait expired in three independent runs: reported by the oracle (something never
+					// happens); anything else (script diverged, setup, panic) is a harness/correspondence matter
+					if strings.Contains(fatal, "within the bound") {
+						c.Oracle = append(c.Oracle, "C15:awaited-event-never-happens|in 3 of 3 runs of this history: "+fatal)
+					} else {
+						c.Note += " HARNESS: " + fatal
+					}
+				}
 				results[k] = c
 				return
 			}
-			switch j.kind {
-			case "directed":
-				c.Kind = fmt.Sprintf("directed-%d", j.sub)
-				c15Directed(w, &c, j.sub)
-			case "concurrent":
-				c15Concurrent(w, newVrand(j.seed), &c)
-			default:
-				c15History(w, newVrand(j.seed), &c, nops)
-			}
-			if w.fatal != "" {
-				c.Note += " HARNESS: " + w.fatal
-			}
-			c.Oracle = w.oracle
-			for f := range w.feat {
-				c.Feat = append(c.Feat, f)
-			}
-			w.close()
-			results[k] = c
 		}(k, j)
 	}
 	wg.Wait()
